@@ -180,8 +180,13 @@ def _one(d, ctx, kinds, **gen_kw):
     frame_free = len(w_frames) == 0 or w_frames[-1] == 1
     # and away from the numerical guards, where rounding differences between
     # vector positions are amplified by 1/floor
-    if case.N >= 2 and frame_free and np.all(np.isfinite(post)) and \
-            not mm.ill_conditioned(model, case):
+    guard = mm.ill_conditioned(model, case)
+    if case.meta.get('single') and hasattr(model, 'cacg'):
+        # single precision: rounding 6e-8 times 1/eigenvalue must stay below
+        # the tolerance
+        lam = np.asarray(model.cacg.covariance_eigenvalues, dtype=np.float64)
+        guard = guard or bool(np.any(lam < 1e-3 * lam.max(axis=-1, keepdims=True)))
+    if case.N >= 2 and frame_free and np.all(np.isfinite(post)) and not guard:
         buf = np.array(case.y)
         ebuf = None if case.emb is None else np.array(case.emb)
         p_a = ctx.lib(mm.predict, model, case, y=buf, emb=ebuf, with_mask=False,
